@@ -2,6 +2,7 @@ package c_crypto
 
 import (
 	"bytes"
+	"crypto/sha1"
 	"fmt"
 	"testing"
 
@@ -27,13 +28,13 @@ type c11Case struct {
 	Data  []byte // for valid classes: what was embedded
 }
 
-var c11Classes = []string{"random", "valid", "valid-bitflip", "valid-trunc16", "valid-wrong-key", "valid-wrong-iv", "badlen", "short"}
+var c11Classes = []string{"random", "valid", "valid-bitflip", "valid-trunc16", "valid-wrong-key", "valid-wrong-iv", "badlen", "short", "crafted-hash"}
 
 // mismatch classes produce (with overwhelming probability) a block-aligned
 // ciphertext whose hash does not match.
 func c11MismatchClass(c string) bool {
 	switch c {
-	case "random", "valid-bitflip", "valid-trunc16", "valid-wrong-key", "valid-wrong-iv", "short":
+	case "random", "valid-bitflip", "valid-trunc16", "valid-wrong-key", "valid-wrong-iv", "short", "crafted-hash":
 		return true
 	}
 	return false
@@ -99,6 +100,27 @@ func genC11(t *rapid.T, st *pbt.Stats) c11Case {
 		valid()
 		c.IV = append([]byte(nil), c.IV...)
 		c.IV[rapid.IntRange(0, 31).Draw(t, "pos")] ^= byte(1 << rapid.IntRange(0, 7).Draw(t, "bit"))
+	case "crafted-hash":
+		// an attacker who knows the temporary key chooses the plaintext: the hash
+		// field is the SHA1 of something that is not "the data followed by at most
+		// 15 bytes of padding" - of nothing at all, of a too short prefix of what
+		// follows (padding > 15), or of a suffix of it
+		k := rapid.IntRange(3, 40).Draw(t, "blocks")
+		tail := drawBytes(t, "tail", 16*k-20)
+		var of []byte
+		switch rapid.IntRange(0, 2).Draw(t, "hashOf") {
+		case 0: // SHA1("")
+		case 1:
+			of = tail[:rapid.IntRange(0, len(tail)-16).Draw(t, "prefixLen")]
+		default:
+			of = tail[rapid.IntRange(1, len(tail)).Draw(t, "suffixFrom"):]
+		}
+		h := sha1.Sum(of)
+		plain := append(append([]byte(nil), h[:]...), tail...)
+		if ref.ExchangeAnswerAuthentic(plain) {
+			t.Skip("the crafted plaintext is authentic after all")
+		}
+		c.CT = ref.IGEEncrypt(c.Key, c.IV, plain)
 	case "badlen":
 		n := rapid.IntRange(1, 640).Draw(t, "n")
 		if n%16 == 0 {
